@@ -1,6 +1,6 @@
 """C05  Tokenizer: total, lossless, position-accurate, classifies by the grammar.
 
-(a) every string of length <= n over a 39-character alphabet, both fullsheet modes:
+(a) every string of length <= n over a 40-character alphabet, both fullsheet modes:
     C05.total / C05.eof / C05.tiling / C05.value / C05.fullsheet
 (b) every sequence of <= m grammar tokens from a spelling menu, joined by separators chosen by
     a conservative, implementation-independent adjacency rule:  C05.classify (+ the clauses of a)
@@ -33,8 +33,8 @@ ASSUMPTIONS = [
 ]
 FLOORS = {'quick': {'outcomes': 2000, 'set:types': 28}, 'thorough': {'outcomes': 5000, 'set:types': 28}}
 
-SIGMA = list('aurleU09-_.+\\"\'/*()@#%<!>{;|=~$^? \n\r\t\f') + ['\u00e9']
-assert len(SIGMA) == len(set(SIGMA)) == 39
+SIGMA = list('aurleU09-_.+\\"\'/*()@#%<!>{;|=~$^? \n\r\t\f') + ['\u00e9', '\u00a0']  # (U+00A0: white space for Python's \s, not for CSS)
+assert len(SIGMA) == len(set(SIGMA)) == 40
 PREFIXES = ['\u00ef\u00bb\u00bf', '\u00fe\u00ff', '@charset ']  # atomic extra first symbols
 BOMS = ('\u00ef\u00bb\u00bf', '\u00fe\u00ff')
 
